@@ -986,30 +986,61 @@ end Pk.RefMap
 namespace Pk.Files
 open Pk Pk.SMap Pk.Ref Pk.RefMap
 
-/-- received keys are texts of refs of supported hashes: `blob.Parse` accepts the text and the ref
-`IsSupported` (its hash name is in the table) -/
-def KeyOK (t : Tbl) : Op → Prop
-  | .recv k _ =>
-    match parse t k true with
-    | some r => supported t r = true
-    | none => False
-  | _ => True
+/-- the key predicate of the store: `blob.Parse` accepts the text and the ref `IsSupported` (its hash
+name is in the table) -/
+def SupK (t : Tbl) (k : Bytes) : Prop := ∃ r, parse t k true = some r ∧ supported t r = true
+
+instance (t : Tbl) (k : Bytes) : Decidable (SupK t k) :=
+  match h : parse t k true with
+  | none => isFalse (by rintro ⟨r, hr, _⟩; rw [h] at hr; cases hr)
+  | some r =>
+    if hs : supported t r = true then isTrue ⟨r, h, hs⟩
+    else isFalse (by rintro ⟨r', hr, hs'⟩; rw [h] at hr; cases hr; exact hs hs')
+
+/-- `SupK` (computable: parse and look the name up) is `SupKey` (the text of a well-formed ref) -/
+theorem supKey_of_supK {t : Tbl} {k : Bytes} (h : SupK t k) : SupKey t k := by
+  obtain ⟨r, hp, hs⟩ := h
+  rcases parse_cases hp with ⟨hw, htx⟩ | hz
+  · exact ⟨r, hw, htx⟩
+  · simp [supported, hz] at hs
+
+theorem supK_of_supKey {t : Tbl} (ht : t.WF) {k : Bytes} (h : SupKey t k) : SupK t k := by
+  obtain ⟨r, hp, _, hw⟩ := parse_supKey ht h
+  exact ⟨r, hp, by simp [supported, hw.1]⟩
+
+theorem supK_iff_supKey {t : Tbl} (ht : t.WF) (k : Bytes) : SupK t k ↔ SupKey t k :=
+  ⟨supKey_of_supK, supK_of_supKey ht⟩
+
+/-- hex text has only characters from `0` up -/
+theorem hexEnc_ge (b : Bytes) : ∀ c ∈ hexEnc b, 48 ≤ c := by
+  induction b with
+  | nil => intro c hc; simp [hexEnc] at hc
+  | cons x xs ih =>
+    intro c hc
+    simp only [hexEnc, List.mem_cons] at hc
+    rcases hc with e | e | e
+    · subst e; unfold hexDigit; split <;> omega
+    · subst e; unfold hexDigit; split <;> omega
+    · exact ih c e
+
+/-- the shape of an accepted key: `name-hexdigits`, no `-` in the name, only characters from `0` up
+(in particular no space) after it -/
+theorem supK_form {t : Tbl} (ht : t.WF) {k : Bytes} (h : SupK t k) :
+    ∃ nm hx, k = nm ++ 45 :: hx ∧ 45 ∉ nm ∧ ∀ c ∈ hx, 48 ≤ c := by
+  obtain ⟨nm, sum, hs, _, hk⟩ := supKey_text (supKey_of_supK h)
+  exact ⟨nm, hexEnc sum, hk, validName_no_dash _ (known_name_valid t ht _ _ hs).1, hexEnc_ge sum⟩
+
+/-- received keys satisfy `SupK`: this IS `Op.KOK (SupK t)` of Spec/RefMap -/
+def KeyOK (t : Tbl) (op : Op) : Prop := op.KOK (SupK t)
+
+theorem keyOK_iff (t : Tbl) (op : Op) : KeyOK t op ↔ op.KOK (SupK t) := Iff.rfl
 
 instance (t : Tbl) (op : Op) : Decidable (KeyOK t op) := by
-  unfold KeyOK
-  split
-  · split <;> infer_instance
-  · infer_instance
+  unfold KeyOK Op.KOK
+  split <;> infer_instance
 
-theorem supKey_of_keyOK {t : Tbl} {k v : Bytes} (h : KeyOK t (.recv k v)) : SupKey t k := by
-  simp only [KeyOK] at h
-  cases hp : parse t k true with
-  | none => simp [hp] at h
-  | some r =>
-    simp only [hp] at h
-    rcases parse_cases hp with ⟨hw, htx⟩ | hz
-    · exact ⟨r, hw, htx⟩
-    · simp [supported, hz] at h
+theorem supKey_of_keyOK {t : Tbl} {k v : Bytes} (h : KeyOK t (.recv k v)) : SupKey t k :=
+  supKey_of_supK h
 
 /-- the invariant of the store: the tree is in the layout, and its listing is a good map -/
 def FilesInv (t : Tbl) (content : Bytes → Bytes) (root : Tree) : Prop :=
@@ -1094,6 +1125,36 @@ theorem files_run_eq (content : Bytes → Bytes) (ops : List Op)
     (hwk : ∀ op ∈ ops, op.WK content) (hk : ∀ op ∈ ops, KeyOK gtbl op) :
     (filesImpl gtbl).run (filesImpl gtbl).init ops = RefMap.run [] ops :=
   files_run_eq_tbl gtbl gtbl_ok content ops hwk hk
+
+/-- every key the store holds is an accepted key (from the layout: every file is `<text>.dat` of a
+supported ref) -/
+theorem filesInv_keys {t : Tbl} (ht : TblOK t) {content : Bytes → Bytes} {root : Tree}
+    (h : FilesInv t content root) {k v : Bytes} (hg : SMap.get (flat root) k = some v) : SupK t k :=
+  supK_of_supKey ht.1 (lay_supKey h.1 (k, v) (get_some_mem hg))
+
+/-- the same refinement in the combinator-ready form of Spec/RefMap: a `RefinesK` for the key
+predicate `SupK t` -/
+def filesRefinesK (t : Tbl) (ht : TblOK t) (content : Bytes → Bytes) :
+    RefinesK content (SupK t) (filesImpl t) where
+  abs := flat
+  Inv := FilesInv t content
+  init_inv := (filesRefines t ht content).init_inv
+  init_abs := rfl
+  good := fun _ h => h.2
+  keys := fun _ h _ _ hg => filesInv_keys ht h hg
+  step_ok := fun s op h hop hk => (filesRefines t ht content).step_ok s op h hop hk
+
+theorem filesRefinesK_abs (t : Tbl) (ht : TblOK t) (content : Bytes → Bytes) :
+    (filesRefinesK t ht content).abs = flat := rfl
+
+theorem filesRefinesK_inv (t : Tbl) (ht : TblOK t) (content : Bytes → Bytes) :
+    (filesRefinesK t ht content).Inv = FilesInv t content := rfl
+
+/-- `files_run_eq_tbl` through `RefinesK.run_init` -/
+theorem files_run_eq_K (t : Tbl) (ht : TblOK t) (content : Bytes → Bytes) (ops : List Op)
+    (hwk : ∀ op ∈ ops, op.WK content) (hk : ∀ op ∈ ops, op.KOK (SupK t)) :
+    (filesImpl t).run (filesImpl t).init ops = RefMap.run [] ops :=
+  (filesRefinesK t ht content).run_init ops hwk hk
 
 /-! ## outside the scope: what `KeyOK` and `TblOK` exclude, with witnesses
 
